@@ -1,0 +1,40 @@
+//go:build verif
+
+package sshswarm
+
+import (
+	"sort"
+
+	"golang.org/x/crypto/ssh"
+)
+
+// VerifConn is a read-only projection of one entry of the connection table.
+// It is only compiled with the verif build tag.
+type VerifConn struct {
+	// Key is the table key (Addr.Key() of the peer: "<fingerprint>@<ip>:<port>").
+	Key string
+	// RemoteFP is the fingerprint of the public key the connection authenticated (Conn.pubKey, not the
+	// fingerprint in the table key).
+	RemoteFP string
+	// RemoteAddr and LocalAddr are the connection's own idea of its two ends.
+	RemoteAddr Addr
+	LocalAddr  Addr
+	// Conn is the stored connection itself (the harness looks at its identity).
+	Conn *Conn
+}
+
+// VerifConns returns the entries of the connection table, sorted by key, taken under the table's lock.
+func (s *Swarm) VerifConns() []VerifConn {
+	s.mu.RLock()
+	defer s.mu.RUnlock()
+	ret := make([]VerifConn, 0, len(s.conns))
+	for k, c := range s.conns {
+		v := VerifConn{Key: k, RemoteAddr: c.remoteAddr, LocalAddr: c.localAddr, Conn: c}
+		if c.pubKey != nil {
+			v.RemoteFP = ssh.FingerprintSHA256(c.pubKey)
+		}
+		ret = append(ret, v)
+	}
+	sort.Slice(ret, func(i, j int) bool { return ret[i].Key < ret[j].Key })
+	return ret
+}
